@@ -5,3 +5,5 @@ package main
 // without the verif overlay the unexported partitionScalars / parallel.Execute are not reachable
 func c04ShimExec(a []string) string { return "bad-op" }
 func c04ShimGen(g *gen)             {}
+
+var c04InnerFns = map[string]func(points, scalars any, c uint64, nbTasks int) any{}
